@@ -16,6 +16,7 @@ import HT.Model.Proto
 import HT.Model.Iso
 import HT.Model.Release
 import HT.Model.Confine
+import HT.Model.Relay
 /-!
 Line-protocol driver: one case per input line, `<model> <args…>`; one output line
 per case.  Core Lean only (so it links as an executable).
@@ -46,6 +47,7 @@ def dispatch (line : String) : String :=
   | "iso" :: args => Iso.driver args
   | "rel" :: args => Rel.driver args
   | "conf" :: args => Conf.driver args
+  | "relay" :: args => Relay.driver args
   | _ => "bad-model"
 
 partial def loop (h : IO.FS.Stream) (out : IO.FS.Stream) : IO Unit := do
